@@ -2,6 +2,7 @@ import Refine.Lemmas.MatrixReal
 import Refine.Lemmas.MatrixDiag2
 import Refine.Lemmas.MatrixRot0
 import Refine.Lemmas.MatrixFun
+import Refine.Lemmas.MatrixInv
 
 /-!
   C16 — the symmetric-matrix kernel of `ref_matrix.c` (model: `Refine/Model/Matrix.lean`).
@@ -319,5 +320,79 @@ theorem bound_self {m1 s is m12 : M6 ℝ} {d1 d2 : Eig12 ℝ} (H : InnerExact m1
   dsimp only at h
   refine combine_self _ ?_ H h
   rw [cmin_eq, one_eq, min_self]
+
+/-! ### inverse and determinant (the C's actual routines: Gauss–Jordan with partial pivoting, guarded) -/
+
+/-- `ref_matrix_inv_gen` with n = 3: every successful run returns the inverse (no hypothesis on the input:
+    the `ref_math_divisible` guards are what makes the pivots non-zero) -/
+theorem invGen3_mul (a b : M33 ℝ) (h : invGen3 a = .ok b) :
+    b.toMat * a.toMat = 1 ∧ a.toMat * b.toMat = 1 :=
+  ⟨invGen3_spec a b h, mul_eq_one_comm.mp (invGen3_spec a b h)⟩
+
+/-- `ref_matrix_inv_m`: every successful run returns the two-sided inverse of m -/
+theorem invM_mul (m r : M6 ℝ) (h : invM m = .ok r) : r.toMat * m.toMat = 1 ∧ m.toMat * r.toMat = 1 :=
+  invM_spec m r h
+
+/-- `ref_matrix_det_m`: the result is the determinant, or 0.0 when a pivot is not `ref_math_divisible`
+    (the C returns REF_SUCCESS with `*det = 0.0` there) -/
+theorem detM_det_or_zero (m : M6 ℝ) : detM m = m.toMat.det ∨ detM m = 0 := detM_spec m
+
+/-! ### ordering of an eigen system -/
+
+theorem swap_isEigSys {d : Eig12 ℝ} {m : M6 ℝ} (h : IsEigSys d m) :
+    IsEigSys (swap01 d) m ∧ IsEigSys (swap02 d) m ∧ IsEigSys (swap12 d) m := by
+  obtain ⟨⟨n0, n1, n2, p01, p02, p12⟩, hf⟩ := h
+  refine ⟨⟨⟨n1, n0, n2, ?_, p12, p02⟩, ?_⟩, ⟨⟨n2, n1, n0, ?_, ?_, ?_⟩, ?_⟩, ⟨⟨n0, n2, n1, p02, p01, ?_⟩, ?_⟩⟩
+  · simp only [swap01]; linear_combination p01
+  · rw [← hf]; apply M6.ext' <;> simp only [formM, swap01, mul_eq, add_eq] <;> ring
+  · simp only [swap02]; linear_combination p12
+  · simp only [swap02]; linear_combination p02
+  · simp only [swap02]; linear_combination p01
+  · rw [← hf]; apply M6.ext' <;> simp only [formM, swap02, mul_eq, add_eq] <;> ring
+  · simp only [swap12]; linear_combination p12
+  · rw [← hf]; apply M6.ext' <;> simp only [formM, swap12, mul_eq, add_eq] <;> ring
+
+/-- `ref_matrix_descending_eig` permutes (value, vector) pairs: it keeps an eigen system an eigen system
+    and leaves the eigenvalues in descending order -/
+theorem descendingEig_spec {d : Eig12 ℝ} {m : M6 ℝ} (h : IsEigSys d m) :
+    IsEigSys (descendingEig d) m ∧
+    (descendingEig d).l1 ≤ (descendingEig d).l0 ∧ (descendingEig d).l2 ≤ (descendingEig d).l1 := by
+  have s1 : ∀ d : Eig12 ℝ, IsEigSys d m →
+      IsEigSys (if Scalar.bgt d.l1 d.l0 then swap01 d else d) m ∧
+      (if Scalar.bgt d.l1 d.l0 then swap01 d else d).l1 ≤ (if Scalar.bgt d.l1 d.l0 then swap01 d else d).l0 := by
+    intro d h
+    by_cases c : Scalar.bgt d.l1 d.l0 = true
+    · rw [if_pos c]; simp only [Scalar.bgt, lt_iff] at c
+      exact ⟨(swap_isEigSys h).1, le_of_lt c⟩
+    · rw [if_neg c]; simp only [Scalar.bgt, lt_iff, not_lt] at c
+      exact ⟨h, c⟩
+  have s2 : ∀ d : Eig12 ℝ, IsEigSys d m → d.l1 ≤ d.l0 →
+      IsEigSys (if Scalar.bgt d.l2 d.l0 then swap02 d else d) m ∧
+      (if Scalar.bgt d.l2 d.l0 then swap02 d else d).l1 ≤ (if Scalar.bgt d.l2 d.l0 then swap02 d else d).l0 ∧
+      (if Scalar.bgt d.l2 d.l0 then swap02 d else d).l2 ≤ (if Scalar.bgt d.l2 d.l0 then swap02 d else d).l0 := by
+    intro d h h10
+    by_cases c : Scalar.bgt d.l2 d.l0 = true
+    · rw [if_pos c]; simp only [Scalar.bgt, lt_iff] at c
+      refine ⟨(swap_isEigSys h).2.1, ?_, ?_⟩
+      · show d.l1 ≤ d.l2; linarith
+      · show d.l0 ≤ d.l2; linarith
+    · rw [if_neg c]; simp only [Scalar.bgt, lt_iff, not_lt] at c
+      exact ⟨h, h10, c⟩
+  have s3 : ∀ d : Eig12 ℝ, IsEigSys d m → d.l1 ≤ d.l0 → d.l2 ≤ d.l0 →
+      IsEigSys (if Scalar.bgt d.l2 d.l1 then swap12 d else d) m ∧
+      (if Scalar.bgt d.l2 d.l1 then swap12 d else d).l1 ≤ (if Scalar.bgt d.l2 d.l1 then swap12 d else d).l0 ∧
+      (if Scalar.bgt d.l2 d.l1 then swap12 d else d).l2 ≤ (if Scalar.bgt d.l2 d.l1 then swap12 d else d).l1 := by
+    intro d h h10 h20
+    by_cases c : Scalar.bgt d.l2 d.l1 = true
+    · rw [if_pos c]; simp only [Scalar.bgt, lt_iff] at c
+      refine ⟨(swap_isEigSys h).2.2, ?_, ?_⟩
+      · show d.l2 ≤ d.l0; exact h20
+      · show d.l1 ≤ d.l2; linarith
+    · rw [if_neg c]; simp only [Scalar.bgt, lt_iff, not_lt] at c
+      exact ⟨h, h10, c⟩
+  unfold descendingEig
+  obtain ⟨e1, o1⟩ := s1 d h
+  obtain ⟨e2, o2, o2'⟩ := s2 _ e1 o1
+  exact s3 _ e2 o2 o2'
 
 end Refine.Props.C16
